@@ -256,7 +256,7 @@ theorem rotateRightNodes_rep {p l r : SNode K V C} {pkvs lkvs rkvs : List (K × 
     (hzk : TreeSlots.rotateRightZeroesKey = true) (hzv : TreeSlots.rotateRightZeroesValue = true)
     (hzc : TreeSlots.rotateRightZeroesChild = true) (hd : TreeSlots.rotateRightDecLeft = true)
     (hik : TreeSlots.rotateRightInsertsKey = true) (hiv : TreeSlots.rotateRightInsertsValue = true)
-    (hic : TreeSlots.rotateRightInsertsChild = true) :
+    (hic : TreeSlots.rotateRightInsertsChild = true) (hir : TreeSlots.rotateRightIncRight = true) :
     ∃ p' l' r', rotateRightNodes p l r idx = some (p', l', r', lkids.getLast?) ∧
       NodeRep p' (pkvs.take idx ++ lkvs.getLast hlne :: pkvs.drop (idx + 1)) pkids ∧
       NodeRep l' lkvs.dropLast lkids.dropLast ∧
@@ -316,7 +316,7 @@ theorem rotateRightNodes_rep {p l r : SNode K V C} {pkvs lkvs rkvs : List (K × 
           { r with keys := rk1, vals := rv1, kids := rc1, n := r.n + 1 }, ?_, ?_, ?_, ?_⟩
   · simp only [Int.natCast_zero] at hrk1 hrv1 hrc1
     simp [rotateRightNodes, g1, g2, g3, g4, g5, e1, e2, e3, e4, hpk1, hpv1, hlk1, hlv1, hlc1, hrk1, hrv1, hrc1,
-      hzk, hzv, hzc, hd, hik, hiv, hic, bumpIf]
+      hzk, hzv, hzc, hd, hik, hiv, hic, hir, bumpIf]
   · refine ⟨by rw [length_replace _ hidx]; exact pn, ?_, ?_, pc, by rw [length_replace _ hidx]; exact ps⟩
     · simpa [List.map_take, List.map_drop] using rpk1
     · simpa [List.map_take, List.map_drop] using rpv1
@@ -342,7 +342,8 @@ theorem rotateLeftNodes_rep {p l r : SNode K V C} {pkvs lkvs rkvs : List (K × V
     {idx : Nat} (hidx0 : 0 < idx) (hidx : idx ≤ pkvs.length) (hrne : rkvs ≠ []) (hroom : lkvs.length < keysCap)
     (hs : TreeSlots.removeOneShifts = true) (hz : TreeSlots.removeOneZeroesLast = true)
     (hsk : TreeSlots.rotateLeftShiftsKeys = true) (hsv : TreeSlots.rotateLeftShiftsValues = true)
-    (hsc : TreeSlots.rotateLeftShiftsChildren = true) :
+    (hsc : TreeSlots.rotateLeftShiftsChildren = true)
+    (hdr : TreeSlots.rotateLeftDecRight = true) (hil : TreeSlots.rotateLeftIncLeft = true) :
     ∃ p' l' r', rotateLeftNodes p l r idx = some (p', l', r', rkids.head?) ∧
       NodeRep p' (pkvs.take (idx - 1) ++ rkvs.head hrne :: pkvs.drop idx) pkids ∧
       NodeRep l' (lkvs ++ [pkvs[idx - 1]]) (lkids ++ rkids.take 1) ∧
@@ -400,7 +401,7 @@ theorem rotateLeftNodes_rep {p l r : SNode K V C} {pkvs lkvs rkvs : List (K × V
           { l with keys := lk1, vals := lv1, kids := lc1, n := l.n + 1 },
           { r with keys := rk1, vals := rv1, kids := rc1, n := r.n - 1 }, ?_, ?_, ?_, ?_⟩
   · simp [rotateLeftNodes, e0, g1, g2, g3, g4, g5, e1, e2, e3, hpk1, hpv1, hlk1, hlv1, hlc1, hrk1, hrv1, hrc1,
-      hsk, hsv, hsc]
+      hsk, hsv, hsc, hdr, hil, bumpIf, Int.sub_eq_add_neg]
   · have hlen : (pkvs.take (idx - 1) ++ rkvs.head hrne :: pkvs.drop idx).length = pkvs.length := by simp; omega
     have hi : idx - 1 + 1 = idx := by omega
     rw [hi] at rpk1 rpv1
